@@ -236,6 +236,7 @@ impl Block for AuDecode {
                         "AU block only supports one channel currently, got {channels}"
                     )));
                 }
+                i.consume(header_rest_len);
                 self.state = DecodeState::Data;
             }
             DecodeState::Data => {
